@@ -37,6 +37,43 @@ def _dominates(prog, fi: FuncInfo, first: list[ast.AST], then: list[ast.AST]) ->
     return bool(fn) and bool(then) and all(cfg.must_pass(n, fn) for c in then for n in cfg.node_of_expr(c, prog.parent) if cfg.is_reachable(n))
 
 
+def _finalize_table(ctx) -> None:
+    from ..tabulate import Interp, Raised
+    r, prog = ctx.r, ctx.prog
+    f = prog.func(PP + ".finalize")
+
+    class _Fin:
+        def __init__(self, tag):
+            self.tag = tag
+
+        def apply(self, output):
+            return list(output) + [self.tag] if isinstance(output, list) else f"{output}+{self.tag}"
+
+    class _S:
+        def __init__(self, fins):
+            self.finalizers = fins
+
+    wrong = []
+    n = 0
+    for fins in ([], [_Fin("f1")], [_Fin("f1"), _Fin("f2")]):
+        for output in ([], ["q"], ["q1", "q2"], ""):
+            it = Interp({"self": _S(fins), "output": output})
+            try:
+                got = it.call(f.node.body)
+            except Raised as e:
+                got = f"<raises {e}>"
+            want = output
+            for fi_ in fins:
+                want = fi_.apply(want)
+            n += 1
+            if got != want:
+                wrong.append(f"{len(fins)} finalizer(s), output {output!r}: {got!r} instead of {want!r}")
+    if wrong:
+        r.violation("C14.R1", f.qual, f"finalize table: {wrong[0]}", f"{len(wrong)} of {n} tabulated cases deviate: every finalizer of the combined pipeline runs once, in order, on the whole result list — also when no query was emitted (an empty list still has to become the finalizers' empty document)", f.loc)
+    else:
+        r.ok("C14.R1", f.qual, f"finalize tabulated over {n} cases (0..2 finalizers x empty/non-empty output): all finalizers in order, no early exit", f.loc)
+
+
 def r1_stage_order(ctx) -> None:
     r, prog = ctx.r, ctx.prog
     r.rule("C14.R1", "stage order: convert() initialises the pipeline unconditionally before anything else and finalises once after all rules; convert_rule applies the pipeline before any condition is converted, finishes before it finalises; finalize_query ends in postprocess_query, finalize in the pipeline's finalizers; both iterate their lists in order")
@@ -119,7 +156,8 @@ def r1_stage_order(ctx) -> None:
         r.ok("C14.R1", f.qual, "each finalizer receives the previous finalizer's output", f.loc)
     else:
         r.violation("C14.R1", f.qual, "output = finalizer.apply(output)", "finalizers are not chained", f.loc)
-    r.floor("C14.R1", 12)
+    _finalize_table(ctx)
+    r.floor("C14.R1", 13)
 
 
 def _flatten_add(e: ast.AST) -> Optional[list[ast.AST]]:
@@ -251,7 +289,15 @@ def r4_resolver(ctx) -> None:
         r.ok("C14.R4", f.qual, "empty specification list → ProcessingPipeline()", f.loc)
     else:
         r.violation("C14.R4", f.qual, "... or ProcessingPipeline()", "empty list no longer resolves to the empty pipeline", f.loc)
-    r.floor("C14.R4", 4)
+    # `sum(...) or ProcessingPipeline()` (and every `if pipeline:` test) treats a pipeline object as "present": it must never be falsy
+    pc = prog.cls(PP)
+    falsy = [(b, m) for b in prog.mro(PP) if b in prog.classes for m in ("__bool__", "__len__") if m in prog.classes[b].methods]
+    if falsy:
+        b, m = falsy[0]
+        r.violation("C14.R4", f"{b}.{m}", f"def {m}", f"a pipeline defines {m}: a pipeline without transformation items becomes falsy, and the resolver's `sum(...) or ProcessingPipeline()` then replaces a combined pipeline that only carries post-processing items, finalizers or vars by an empty one", prog.classes[b].methods[m].loc)
+    else:
+        r.ok("C14.R4", PP, "a pipeline object is always truthy (no __bool__/__len__), as the `or ProcessingPipeline()` fallback assumes", f"{pc.module.relpath}:{pc.node.lineno}")
+    r.floor("C14.R4", 5)
 
 
 def r5_operands_not_consumed(ctx, rid: str = "C14.R5", skip_clear: bool = False) -> None:
